@@ -13,7 +13,7 @@ NOTE = ("Trusted: the Coq 8.16.1 kernel (vm_compute for finite sweeps and witnes
 P = {
  "C01": ("Full statement proved: for every wf_packet (all four extension shapes, 0-15 CSRCs, any payload, padding 1-255) Marshal succeeds with MarshalSize bytes and Unmarshal returns an equal packet; same for headers (C01_packet_roundtrip, C01_header_roundtrip).", ""),
  "C02": ("Full statement proved for all byte strings and all previous receiver values: no panic, bounds, payload and extension values are the input bytes at the reported offsets, reuse = fresh as an equality of results in every field (C02_no_panic, C02_bounds, C02_header_bounds, C02_reuse_*; the equality became true with repair D26).", ""),
- "C03": ("Proved: every well-formed RFC 3550/8285 wire image (Spec/Rfc3550.v, padding anywhere, zero-length two-byte elements, legacy blocks) without a reserved id 15 decodes to what it was built from; C03_reencode: EVERY input Packet.Unmarshal accepts into a fresh Packet decodes to a well-formed packet whose Marshal output decodes to the same packet (sole exception, stated: P bit with zero count is refused by Marshal); standalone one-/two-byte views agree with the header. C03_decode_rfc_partial + C03_reserved15_refuted: reserved id 15 is known finding KF-C03-reserved15 (pinned by an upstream test).", "The raw (RFC 3550) view keeps the byte string it was handed under id 0 (C03_raw_view); all three views re-serialise byte-identically (C03_view_reserialise)."),
+ "C03": ("Proved: every well-formed RFC 3550/8285 wire image (Spec/Rfc3550.v, padding anywhere, zero-length two-byte elements, legacy blocks) without a reserved id 15 decodes to what it was built from; C03_reencode: EVERY input Packet.Unmarshal accepts into a fresh Packet decodes to a well-formed packet whose Marshal output decodes to the same packet (sole exception, stated: P bit with zero count is refused by Marshal); standalone one-/two-byte views agree with the header, the two-byte form with any application bits (profiles 0x1000-0x100F, D31). C03_decode_rfc_partial + C03_reserved15_refuted: reserved id 15 is known finding KF-C03-reserved15 (pinned by an upstream test). C03_raw_view_value_refuted: the raw view reports the whole block, header word included, as its value where the header decoder reports the block without it - known finding KF-C03-raw-view-value (no small repair).", "The raw (RFC 3550) view keeps the byte string it was handed under id 0 (C03_raw_view); all three views re-serialise byte-identically (C03_view_reserialise)."),
  "C04": ("Full statement proved: short destination -> short-buffer error, never Panic; sufficient destination -> exactly Marshal() followed by the untouched tail of the destination, for every prior content (C04_*_short, C04_*_exact).", ""),
  "C05": ("Full statement proved: refinement of Set/Del/Get/GetIDs to an ordered map over all op sequences and the four starts, errors leave the header unchanged, Marshal total on every reachable header, accepted values survive the wire (legacy non-multiple-of-4 is the only refusal).", ""),
  "C06": ("Full statement proved parametrically in the payloader: numbering mod 2^16 across calls, timestamps, marker, payloads unchanged, MTU bound given the payloader honours its budget - also with the abs-send-time element (ids 1-255, one-byte or two-byte form; C06_mtu_abs, after repair D24) on the last packet only, padding packets valid, over arbitrary histories (C06_history).", "The clock and the initial timestamp are parameters (verif hook injects them)."),
@@ -50,7 +50,7 @@ def main():
             "kind_free_text": "Coq 8.16.1 development (coq/: Base, Model, Spec, Proofs, Properties, Extract), extracted OCaml model runner (runner/driver.ml + extracted model), Go differential harness with property oracles (harness/), Python orchestrator (check), mutation self-test (lib/selftest.py, seeded/)",
         }],
         "checks": [],
-        "notes": "Every check: (1) full make of the Coq development + Print Assumptions under every theorem of Properties/<id>.v + lint (no Admitted/admit/Axiom/Parameter/...); (2) harness rebuilt against /repo with -tags verif; (3) correspondence: corpus + generated cases run on the implementation and on the extracted model, observables compared line by line; (4) the property's own oracle on the implementation; (5) verdict per DESIGN.md section 5 and evidence. Thorough adds a clean rebuild + coqchk -o over all Properties modules (shared stamp), 50-200x the cases, and an in-Coq vm_compute re-evaluation of a 300-case sub-corpus. known_findings.json lists 2 open findings (C03, C14; both pinned by upstream tests) and 35 'fixed:' records.",
+        "notes": "Every check: (1) full make of the Coq development + Print Assumptions under every theorem of Properties/<id>.v + lint (no Admitted/admit/Axiom/Parameter/...); (2) harness rebuilt against /repo with -tags verif; (3) correspondence: corpus + generated cases run on the implementation and on the extracted model, observables compared line by line; (4) the property's own oracle on the implementation; (5) verdict per DESIGN.md section 5 and evidence. Thorough adds a clean rebuild + coqchk -o over all Properties modules (shared stamp), 50-200x the cases, and an in-Coq vm_compute re-evaluation of a 300-case sub-corpus. known_findings.json lists 3 open findings (C03 reserved id 15 and C14 DONL in every FU, both pinned by upstream tests; C03 raw-view value, which has no small repair) and 35 'fixed:' records.",
         "not_applicable": [],
     }
     for pid in sorted(P):
